@@ -5,18 +5,20 @@ CONSTANTS
   HsKinds = {"valid", "garbage"}
   TgtKinds = {"ok", "refuse"}
   MaxC = 1
-  MaxT = 1
-  MaxTok = 4
+  MaxT = 0
+  MaxTok = 3
   AllowBad = TRUE
   AllowSplit = FALSE
-  AllowRst = TRUE
+  AllowRst = FALSE
   Timeout = 2
-  MaxNow = 2
+  MaxNow = 0
   DrainMode = "raw"
   Strict = TRUE
   WithServe = TRUE
   Hist = FALSE
+  SlackEarly = 0
+  SlackLate = 0
+  SlackSched = 0
 INVARIANTS C18_NoLeak C18_ServeWaits C18_SocketsFollowHandler
-INVARIANTS C15_Language C15_AuthOnlyIfAuthenticated C15_ProbeIffFailed C15_ProbeBytes C15_Status C15_OkIffComplete C15_Counters
 PROPERTIES C18_Isolation
-VIEW View
+VIEW ViewMech
